@@ -5,7 +5,10 @@ scan(repo) -> dict used both by the Lean table (Gen/Caches.lean) and by harness/
   wcc_fields / scc_fields   fields of the namedtuples that key the compressed-weight cache
   stores                    module-level / class-level containers created empty (i.e. filled at run time) and
                             functions under functools.lru_cache / cache, as "<module>.<qualified name>"
-  cleanup                   per entry point of vela.py, the reset calls it makes (main includes process())
+  prepare / cleanup         per entry point of vela.py, the reset calls it makes before / after handing over to
+                            compiler_driver (main includes process()); driver_prepare: those inside compiler_driver()
+  writer_tensor_collection  right-hand side of the assignment that creates tflite_writer's `tensor_set`
+  greedy_set_uses           functions of greedy_allocation.py that build a set()
   convert_hardcoded, convert_bytes_hardcoded, main_defaults
                             the four options convert()/convert_bytes() fix, and main()'s defaults for them
   hash_sites                every call of the builtin hash(): (module, enclosing function)
@@ -88,7 +91,8 @@ def scan(repo):
     vdir = os.path.join(repo, "ethosu", "vela")
     files = sorted(f for f in os.listdir(vdir) if f.endswith(".py") and not f.startswith("test_"))
     info = {"stores": [], "hash_sites": [], "random_sites": [], "seed_sites": [], "writer_sorts": [], "wcc_fields": [],
-            "scc_fields": [], "cleanup": {}, "convert_hardcoded": [], "convert_bytes_hardcoded": [], "main_defaults": []}
+            "scc_fields": [], "cleanup": {}, "prepare": {}, "driver_prepare": [], "writer_tensor_collection": [],
+            "greedy_set_uses": [], "convert_hardcoded": [], "convert_bytes_hardcoded": [], "main_defaults": []}
     trees = {}
     for fn in files:
         src = open(os.path.join(vdir, fn), encoding="utf-8").read()
@@ -141,6 +145,19 @@ def scan(repo):
                         info["random_sites"].append((mod, s.qual()))
                 if mod == "tflite_writer" and name == "sorted":
                     info["writer_sorts"].append(" ".join(ast.get_source_segment(src, node).split()))
+                if mod == "greedy_allocation" and name in ("set", "frozenset") and s.qual() not in info["greedy_set_uses"]:
+                    info["greedy_set_uses"].append(s.qual())
+                s.generic_visit(node)
+
+            def visit_Assign(s, node):
+                if mod == "tflite_writer" and len(node.targets) == 1 and isinstance(node.targets[0], ast.Name) and \
+                        node.targets[0].id == "tensor_set":
+                    info["writer_tensor_collection"].append(" ".join(ast.get_source_segment(src, node.value).split()))
+                s.generic_visit(node)
+
+            def visit_SetComp(s, node):
+                if mod == "greedy_allocation" and s.qual() not in info["greedy_set_uses"]:
+                    info["greedy_set_uses"].append(s.qual())
                 s.generic_visit(node)
 
         V().visit(tree)
@@ -149,17 +166,34 @@ def scan(repo):
     vtree, vsrc = trees["vela"]
     funcs = {n.name: n for n in vtree.body if isinstance(n, ast.FunctionDef)}
 
-    def clears(fn):
+    def handover_line(fn):
+        """line of the call that hands over to the compiler: compiler_driver.compiler_driver(...) or process(...)"""
+        lines = [node.lineno for node in ast.walk(funcs[fn]) if isinstance(node, ast.Call) and
+                 _dotted(node.func) in ("compiler_driver.compiler_driver", "process")]
+        return min(lines) if lines else 10 ** 9
+
+    def clears(fn, before):
         out = []
+        ho = handover_line(fn)
         for node in ast.walk(funcs[fn]):
             if isinstance(node, ast.Call):
                 name = _dotted(node.func)
-                if name.split(".")[-1] in CLEAR_WORDS and "." in name:
+                if name.split(".")[-1] in CLEAR_WORDS and "." in name and (node.lineno < ho) == before:
                     out.append(name)
         return sorted(set(out))
 
     for fn, incl in (("main", ["main", "process"]), ("convert", ["convert"]), ("convert_bytes", ["convert_bytes"])):
-        info["cleanup"][fn] = sorted(set(c for f in incl if f in funcs for c in clears(f)))
+        info["prepare"][fn] = sorted(set(c for f in incl if f in funcs for c in clears(f, True)))
+        info["cleanup"][fn] = sorted(set(c for f in incl if f in funcs for c in clears(f, False)))
+    dtree, _dsrc = trees["compiler_driver"]
+    for node in dtree.body:
+        if isinstance(node, ast.FunctionDef) and node.name == "compiler_driver":
+            for sub in ast.walk(node):
+                if isinstance(sub, ast.Call):
+                    name = _dotted(sub.func)
+                    if name.split(".")[-1] in CLEAR_WORDS and "." in name:
+                        info["driver_prepare"].append(name)
+    info["driver_prepare"] = sorted(set(info["driver_prepare"]))
 
     def hardcoded(fn):
         got = {}
@@ -207,7 +241,12 @@ def sccFields : List String := {lit(info["scc_fields"])}
 /-- containers created empty at module or class level (filled at run time) and functions under `lru_cache`, in `ethosu/vela/*.py` -/
 def processStores : List String := {lit(info["stores"])}
 
-/-- reset calls made by each entry point of `vela.py` (`main` includes `process`) -/
+/-- reset calls made by each entry point of `vela.py` (`main` includes `process`) before it hands over to
+`compiler_driver`, by `compiler_driver` itself, and by the entry point afterwards -/
+def prepareMain : List String := {lit(info["prepare"]["main"])}
+def prepareConvert : List String := {lit(info["prepare"]["convert"])}
+def prepareConvertBytes : List String := {lit(info["prepare"]["convert_bytes"])}
+def driverPrepare : List String := {lit(info["driver_prepare"])}
 def cleanupMain : List String := {lit(info["cleanup"]["main"])}
 def cleanupConvert : List String := {lit(info["cleanup"]["convert"])}
 def cleanupConvertBytes : List String := {lit(info["cleanup"]["convert_bytes"])}
@@ -226,6 +265,12 @@ def seedSites : List (String × String × String) := {lit([(a, b, c) for a, b, c
 
 /-- every `sorted(...)` of `tflite_writer.py`, whitespace-normalised -/
 def writerSorts : List String := {lit(info["writer_sorts"])}
+
+/-- what `tflite_writer` collects the tensors of a subgraph in, before sorting them by name -/
+def writerTensorCollection : List String := {lit(info["writer_tensor_collection"])}
+
+/-- functions of `greedy_allocation.py` that build a `set` -/
+def greedySetUses : List String := {lit(info["greedy_set_uses"])}
 
 end VelaVerif.Gen.Caches
 """
